@@ -626,3 +626,399 @@ Qed.
 
 Lemma same_tree_norm dn t : valid_tree t = true -> same_tree dn t (Ret (norm_tree dn t)) = true.
 Proof. intros Hv. unfold same_tree. rewrite sort_norm_tree by exact Hv. apply tree_eqb_refl. Qed.
+
+(* ---------------------------------------------------------------------------------------------- *)
+(* parsing a path string written with a single-character separator that occurs in no name *)
+
+Section Parse.
+  Variable c : N.
+  Definition clean (w : str) : Prop := w <> [] /\ ~ In c w.
+
+  Lemma contains_char w : contains w [c] = false -> ~ In c w.
+  Proof.
+    induction w as [|x w IH]; intros H; [intros []|]. cbn [contains startswith] in H.
+    apply orb_false_iff in H as [H1 H2]. rewrite andb_true_r in H1. apply N.eqb_neq in H1.
+    intros [E|Hin]; [congruence|]. apply IH; assumption.
+  Qed.
+
+  Lemma split_go_word w : ~ In c w -> forall fuel cur rest,
+    split_go (length w + fuel) [c] cur (w ++ rest) = split_go fuel [c] (rev w ++ cur) rest.
+  Proof.
+    induction w as [|x w IH]; intros Hw fuel cur rest; [reflexivity|].
+    cbn [length Nat.add app split_go startswith].
+    assert (E : N.eqb c x = false) by (apply N.eqb_neq; intros ->; apply Hw; left; reflexivity).
+    rewrite E. cbn [andb]. rewrite IH by (intros Hin; apply Hw; right; exact Hin).
+    cbn [rev]. rewrite <- app_assoc. reflexivity.
+  Qed.
+
+  Lemma split_go_nil fuel cur : split_go fuel [c] cur [] = [rev cur].
+  Proof. destruct fuel; reflexivity. Qed.
+
+  Lemma split_go_join ws : forall w cur fuel,
+    Forall (fun w => ~ In c w) (w :: ws) -> length (join [c] (w :: ws)) < fuel ->
+    split_go fuel [c] cur (join [c] (w :: ws)) = (rev cur ++ w) :: ws.
+  Proof.
+    induction ws as [|w2 ws IH]; intros w cur fuel HF Hlen; inversion HF as [|? ? Hw HF']; subst.
+    - cbn [join] in *. pose proof (split_go_word w Hw (fuel - length w) cur []) as E.
+      rewrite app_nil_r in E. replace (length w + (fuel - length w)) with fuel in E by lia.
+      rewrite E, split_go_nil, rev_app_distr, rev_involutive. reflexivity.
+    - rewrite join_cons in *. unfold str in *. rewrite !app_length in Hlen. cbn [length] in Hlen.
+      pose proof (split_go_word w Hw (S (fuel - length w - 1)) cur ([c] ++ join [c] (w2 :: ws))) as E.
+      replace (length w + S (fuel - length w - 1)) with fuel in E by lia. eapply eq_trans; [exact E|]. clear E.
+      cbn [app split_go startswith]. rewrite N.eqb_refl. cbn [andb length skipn].
+      rewrite rev_app_distr, rev_involutive. f_equal.
+      rewrite IH; [reflexivity|exact HF'|lia].
+  Qed.
+
+  Lemma split_join w ws : Forall (fun w => ~ In c w) (w :: ws) -> split (join [c] (w :: ws)) [c] = w :: ws.
+  Proof. intros H. unfold split. rewrite split_go_join; [reflexivity|exact H|lia]. Qed.
+
+  Lemma join_head x w ws : exists s, join [c] ((x :: w) :: ws) = x :: s.
+  Proof. destruct ws; [exists w; reflexivity|]. rewrite join_cons. eexists. reflexivity. Qed.
+
+  Lemma join_last ws : forall w, Forall clean (w :: ws) -> exists s y, join [c] (w :: ws) = s ++ [y] /\ y <> c.
+  Proof.
+    induction ws as [|w2 ws IH]; intros w HF; inversion HF as [|? ? [Hne Hc] HF']; subst.
+    - cbn [join]. destruct (exists_last Hne) as [s [y E]]. exists s, y. split; [exact E|].
+      intros ->. apply Hc. rewrite E. apply in_or_app. right. left. reflexivity.
+    - destruct (IH w2 HF') as [s [y [E Hy]]]. rewrite join_cons, E. exists (w ++ [c] ++ s), y.
+      split; [|exact Hy]. rewrite <- !app_assoc. reflexivity.
+  Qed.
+
+  Lemma memN_single x : memN x [c] = N.eqb x c.
+  Proof. unfold memN. cbn. apply orb_false_r. Qed.
+
+  Lemma lstrip_sep s : lstrip (c :: s) [c] = lstrip s [c].
+  Proof. cbn [lstrip]. rewrite memN_single, N.eqb_refl. reflexivity. Qed.
+
+  Lemma lstrip_other x s : x <> c -> lstrip (x :: s) [c] = x :: s.
+  Proof. intros H. cbn [lstrip]. rewrite memN_single. apply N.eqb_neq in H. rewrite H. reflexivity. Qed.
+
+  Lemma rstrip_other s y : y <> c -> rstrip (s ++ [y]) [c] = s ++ [y].
+  Proof.
+    intros H. unfold rstrip. rewrite rev_app_distr. cbn [rev app]. rewrite lstrip_other by exact H.
+    cbn [rev]. rewrite rev_involutive. reflexivity.
+  Qed.
+
+  Lemma strip_path_ok w ws : Forall clean (w :: ws) ->
+    strip_path (path_name [c] (w :: ws)) [c] = join [c] (w :: ws).
+  Proof.
+    intros HF. unfold strip_path, path_name. change ([c] ++ join [c] (w :: ws)) with (c :: join [c] (w :: ws)).
+    rewrite lstrip_sep. destruct (join_last ws w HF) as [s' [y [E Hy]]].
+    inversion HF as [|? ? [Hw Hc] _]; subst. destruct w as [|x w]; [contradiction|].
+    destruct (join_head x w ws) as [s Es].
+    assert (Hx : x <> c) by (intros ->; apply Hc; left; reflexivity).
+    unfold str in *. rewrite Es, lstrip_other by exact Hx. rewrite <- Es, E. apply rstrip_other. exact Hy.
+  Qed.
+
+  Lemma branch_of_path l : l <> [] -> Forall clean l -> branch_of (path_name [c] l) [c] = l.
+  Proof.
+    intros Hne HF. destruct l as [|w ws]; [contradiction|].
+    unfold branch_of. rewrite strip_path_ok by exact HF. apply split_join.
+    eapply Forall_impl; [|exact HF]. intros x [_ H]. exact H.
+  Qed.
+
+  Lemma path_name_inj l1 l2 : l1 <> [] -> l2 <> [] -> Forall clean l1 -> Forall clean l2 ->
+    path_name [c] l1 = path_name [c] l2 -> l1 = l2.
+  Proof.
+    intros N1 N2 H1 H2 E. rewrite <- (branch_of_path l1 N1 H1), <- (branch_of_path l2 N2 H2), E. reflexivity.
+  Qed.
+
+  Lemma add_branch_name names na t : tname (add_branch names na t) = tname t.
+  Proof. destruct names, t; reflexivity. Qed.
+
+  Lemma add_path_to_tree_ok t r rest na :
+    tname t = r -> Forall clean (r :: rest) ->
+    add_path_to_tree t (path_name [c] (r :: rest)) [c] na = Ret (add_branch rest na t).
+  Proof.
+    intros Hr HF. unfold add_path_to_tree. rewrite branch_of_path by (try discriminate; exact HF).
+    cbn [path_name app is_empty nonempty negb]. rewrite Hr, str_eqb_refl. cbn [negb].
+    inversion HF as [|? ? _ HF']; subst.
+    assert (E : existsb is_empty rest = false).
+    { clear HF. induction rest as [|w rest IH]; [reflexivity|]. inversion HF' as [|? ? [Hw _] HF'']; subst.
+      cbn [existsb]. destruct w; [contradiction|]. cbn. apply IH. exact HF''. }
+    rewrite E. reflexivity.
+  Qed.
+End Parse.
+
+(* ---------------------------------------------------------------------------------------------- *)
+(* the nodes with their name paths, presented inductively *)
+
+Fixpoint rel_nodes (t : tree) : list (list str * tree) :=
+  match t with
+  | T _ n _ ks => ([n], t) :: flat_map (fun k => map (fun pr => (n :: fst pr, snd pr)) (rel_nodes k)) ks
+  end.
+
+Lemma nodes_under_rel t : forall anc,
+  nodes_under anc t = map (fun pr => (anc ++ fst pr, snd pr)) (rel_nodes t).
+Proof.
+  induction t as [g n a ks IH] using tree_ind'. intros anc.
+  rewrite nodes_under_unfold. cbn [rel_nodes map fst snd]. unfold ctx_of. cbn [tname]. f_equal.
+  rewrite map_flat_map. apply flat_map_ext_Forall. eapply Forall_impl; [|exact IH].
+  intros k Hk. cbn beta. rewrite Hk, map_map. apply map_ext. intros pr. cbn [fst snd].
+  rewrite <- app_assoc. reflexivity.
+Qed.
+
+Lemma nodes_under_root t : nodes_under [] t = rel_nodes t.
+Proof.
+  rewrite nodes_under_rel. rewrite <- (map_id (rel_nodes t)) at 2. apply map_ext. intros [p x]. reflexivity.
+Qed.
+
+Lemma rel_nodes_head t : Forall (fun pr => exists r, fst pr = tname t :: r) (rel_nodes t).
+Proof.
+  destruct t as [g n a ks]. cbn [rel_nodes tname]. constructor; [exists []; reflexivity|].
+  apply Forall_forall. intros pr Hin. apply in_flat_map in Hin as [k [_ Hin]].
+  apply in_map_iff in Hin as [qr [E _]]. subst pr. cbn [fst]. eexists. reflexivity.
+Qed.
+
+Lemma NoDup_app_intro {A} (l1 l2 : list A) :
+  NoDup l1 -> NoDup l2 -> (forall x, In x l1 -> ~ In x l2) -> NoDup (l1 ++ l2).
+Proof.
+  induction l1 as [|x l1 IH]; intros H1 H2 Hd; [exact H2|]. inversion H1 as [|? ? Hx H1']; subst.
+  cbn [app]. constructor.
+  - intros Hin. apply in_app_or in Hin as [Hin|Hin]; [contradiction|]. apply (Hd x); [left; reflexivity|exact Hin].
+  - apply IH; [exact H1'|exact H2|]. intros y Hy. apply Hd. right. exact Hy.
+Qed.
+
+Lemma NoDup_map_inj_on {A B} (f : A -> B) l :
+  (forall x y, In x l -> In y l -> f x = f y -> x = y) -> NoDup l -> NoDup (map f l).
+Proof.
+  induction l as [|x l IH]; intros Hinj Hn; [constructor|]. inversion Hn as [|? ? Hx Hl]; subst.
+  cbn [map]. constructor.
+  - intros Hin. apply in_map_iff in Hin as [y [E Hy]]. apply Hx.
+    rewrite (Hinj x y); [exact Hy|left; reflexivity|right; exact Hy|symmetry; exact E].
+  - apply IH; [|exact Hl]. intros a b Ha Hb. apply Hinj; right; assumption.
+Qed.
+
+Lemma rel_paths_nodup t : valid_tree t = true -> NoDup (map fst (rel_nodes t)).
+Proof.
+  induction t as [g n a ks IH] using tree_ind'. intros Hv.
+  apply valid_tree_inv in Hv as [Hok Hks]. apply node_ok_inv in Hok as [_ [Hnames _]].
+  cbn [rel_nodes map fst]. rewrite map_flat_map. constructor.
+  - intros Hin. apply in_flat_map in Hin as [k [_ Hin]]. rewrite map_map in Hin. cbn [fst] in Hin.
+    apply in_map_iff in Hin as [pr [E Hpr]].
+    pose proof (rel_nodes_head k) as Hh. rewrite Forall_forall in Hh. destruct (Hh pr Hpr) as [r Er].
+    rewrite Er in E. discriminate.
+  - assert (IH' : Forall (fun k => NoDup (map fst (rel_nodes k))) ks).
+    { rewrite Forall_forall in *. intros k Hk. apply IH; [exact Hk|apply Hks; exact Hk]. }
+    clear IH Hks. induction ks as [|k ks IHk]; [constructor|].
+    inversion IH' as [|? ? Hk IH'']; subst. cbn [map] in Hnames. inversion Hnames as [|? ? Hkn Hnames']; subst.
+    cbn [flat_map]. apply NoDup_app_intro.
+    + rewrite map_map. cbn [fst]. rewrite <- (map_map fst (cons n)).
+      apply NoDup_map_inj_on; [|exact Hk]. intros x y _ _ E. injection E as E. exact E.
+    + apply IHk; assumption.
+    + intros x Hx Hx'. rewrite map_map in Hx. cbn [fst] in Hx. apply in_map_iff in Hx as [pr [E Hpr]].
+      apply in_flat_map in Hx' as [k' [Hk' Hx']]. rewrite map_map in Hx'. cbn [fst] in Hx'.
+      apply in_map_iff in Hx' as [pr' [E' Hpr']].
+      pose proof (rel_nodes_head k) as Hh. rewrite Forall_forall in Hh. destruct (Hh pr Hpr) as [r Er].
+      pose proof (rel_nodes_head k') as Hh'. rewrite Forall_forall in Hh'. destruct (Hh' pr' Hpr') as [r' Er'].
+      rewrite Er in E. rewrite Er' in E'. subst x. injection E' as E'. 
+      apply Hkn. rewrite <- E'. apply in_map. exact Hk'.
+Qed.
+
+(* names without the separator character *)
+Definition names_clean (c : N) (t : tree) : Prop := Forall (fun n => clean c (tname n)) (pre t).
+
+Lemma names_clean_of c t : valid_tree t = true -> sep_safe [c] t = true -> names_clean c t.
+Proof.
+  unfold valid_tree, sep_safe, names_clean. cbn [nonempty andb]. intros Hv Hs.
+  rewrite forallb_forall in Hv, Hs. apply Forall_forall. intros n Hn. split.
+  - specialize (Hv n Hn). unfold node_ok in Hv. apply andb_true_iff in Hv as [Hv _].
+    apply andb_true_iff in Hv as [Hv _]. intros E. rewrite E in Hv. discriminate.
+  - apply contains_char. specialize (Hs n Hn). apply negb_true_iff in Hs. exact Hs.
+Qed.
+
+Lemma names_clean_inv c g n a ks : names_clean c (T g n a ks) ->
+  clean c n /\ Forall (names_clean c) ks.
+Proof.
+  unfold names_clean. cbn [pre]. intros H. inversion H as [|? ? Hn Hr]; subst. split; [exact Hn|].
+  apply Forall_forall. intros k Hk. apply Forall_forall. intros x Hx.
+  rewrite Forall_forall in Hr. apply Hr. apply in_flat_map. exists k. split; assumption.
+Qed.
+
+Lemma rel_nodes_clean c t : names_clean c t -> Forall (fun pr => Forall (clean c) (fst pr)) (rel_nodes t).
+Proof.
+  induction t as [g n a ks IH] using tree_ind'. intros Hc.
+  apply names_clean_inv in Hc as [Hn Hks]. cbn [rel_nodes]. constructor; [cbn [fst]; constructor; [exact Hn|constructor]|].
+  apply Forall_forall. intros pr Hin. apply in_flat_map in Hin as [k [Hk Hin]].
+  apply in_map_iff in Hin as [qr [E Hqr]]. subst pr. cbn [fst]. constructor; [exact Hn|].
+  rewrite Forall_forall in IH, Hks. specialize (IH k Hk (Hks k Hk)). rewrite Forall_forall in IH. apply IH. exact Hqr.
+Qed.
+
+Lemma rel_nodes_nonempty t : Forall (fun pr => fst pr <> []) (rel_nodes t).
+Proof.
+  eapply Forall_impl; [|apply rel_nodes_head]. intros pr [r E]. rewrite E. discriminate.
+Qed.
+
+(* C06: distinct paths *)
+Lemma paths_nodup c t : valid_tree t = true -> sep_safe [c] t = true ->
+  NoDup (map (c_path [c]) (nodes_under [] t)).
+Proof.
+  intros Hv Hs. rewrite nodes_under_root.
+  change (map (c_path [c]) (rel_nodes t)) with (map (fun pr => path_name [c] (fst pr)) (rel_nodes t)).
+  rewrite <- (map_map fst (path_name [c])). apply NoDup_map_inj_on; [|apply rel_paths_nodup; exact Hv].
+  intros x y Hx Hy E. apply in_map_iff in Hx as [px [Ex Hx]]. apply in_map_iff in Hy as [py [Ey Hy]].
+  pose proof (rel_nodes_clean c t (names_clean_of c t Hv Hs)) as Hc. rewrite Forall_forall in Hc.
+  pose proof (rel_nodes_nonempty t) as Hn. rewrite Forall_forall in Hn. subst x y.
+  apply (path_name_inj c); auto.
+Qed.
+
+(* ---------------------------------------------------------------------------------------------- *)
+(* inserting the records of a tree in pre-order rebuilds the tree *)
+
+Definition ins_all (l : list (list str * record)) (t : tree) : tree :=
+  fold_left (fun t pr => add_branch (fst pr) (snd pr) t) l t.
+
+Fixpoint rel_recs (f : tree -> record) (t : tree) : list (list str * record) :=
+  match t with
+  | T _ n _ ks =>
+      ([], f t) :: flat_map (fun k => map (fun qr => (tname k :: fst qr, snd qr)) (rel_recs f k)) ks
+  end.
+
+Fixpoint rebuild (f : tree -> record) (t : tree) : tree :=
+  match t with T _ n _ ks => T None n (f t) (map (rebuild f) ks) end.
+
+Lemma rebuild_name f t : tname (rebuild f t) = tname t.
+Proof. destruct t; reflexivity. Qed.
+
+Lemma rel_nodes_recs f t :
+  map (fun pr => (fst pr, f (snd pr))) (rel_nodes t)
+  = map (fun qr => (tname t :: fst qr, snd qr)) (rel_recs f t).
+Proof.
+  induction t as [g n a ks IH] using tree_ind'. cbn [rel_nodes rel_recs map fst snd tname]. f_equal.
+  rewrite !map_flat_map. apply flat_map_ext_Forall. eapply Forall_impl; [|exact IH].
+  intros k Hk. cbn beta. rewrite !map_map. cbn [fst snd].
+  rewrite <- (map_map (fun pr => (fst pr, f (snd pr))) (fun qr => (n :: fst qr, snd qr))).
+  rewrite Hk, map_map. reflexivity.
+Qed.
+
+Lemma rel_recs_clean c f t : names_clean c t ->
+  Forall (fun qr => Forall (clean c) (tname t :: fst qr)) (rel_recs f t).
+Proof.
+  intros Hc. pose proof (rel_nodes_clean c t Hc) as H.
+  assert (H' : Forall (fun pr => Forall (clean c) (fst pr)) (map (fun pr => (fst pr, f (snd pr))) (rel_nodes t))).
+  { apply Forall_forall. intros pr Hin. apply in_map_iff in Hin as [qr [E Hqr]]. subst pr. cbn [fst].
+    rewrite Forall_forall in H. apply H. exact Hqr. }
+  rewrite rel_nodes_recs in H'. apply Forall_forall. intros qr Hqr. rewrite Forall_forall in H'.
+  apply (H' (tname t :: fst qr, snd qr)). apply in_map_iff. exists qr. split; [reflexivity|exact Hqr].
+Qed.
+
+Fixpoint upd_first (m : str) (F : tree -> tree) (l : list tree) : list tree :=
+  match l with
+  | [] => [F (new_node m)]
+  | k :: r => if str_eqb (tname k) m then F k :: r else k :: upd_first m F r
+  end.
+
+Lemma add_branch_cons m p na g n a ks :
+  add_branch (m :: p) na (T g n a ks) = T g n a (upd_first m (add_branch p na) ks).
+Proof.
+  cbn [add_branch]. f_equal. induction ks as [|k ks IH]; [reflexivity|]. cbn [upd_first].
+  destruct (str_eqb (tname k) m); [reflexivity|]. f_equal. exact IH.
+Qed.
+
+Lemma upd_first_ext m F G l : (forall x, F x = G x) -> upd_first m F l = upd_first m G l.
+Proof.
+  intros H. induction l as [|k l IH]; cbn [upd_first]; [rewrite H; reflexivity|].
+  destruct (str_eqb (tname k) m); [rewrite H; reflexivity|]. f_equal. exact IH.
+Qed.
+
+Lemma upd_first_twice m F G l : (forall x, tname (F x) = tname x) ->
+  upd_first m G (upd_first m F l) = upd_first m (fun x => G (F x)) l.
+Proof.
+  intros HF. induction l as [|k l IH]; cbn [upd_first].
+  - rewrite HF. cbn [new_node tname]. rewrite str_eqb_refl. reflexivity.
+  - destruct (str_eqb (tname k) m) eqn:E; cbn [upd_first].
+    + rewrite HF, E. reflexivity.
+    + rewrite E. f_equal. exact IH.
+Qed.
+
+Lemma upd_first_fresh m F l : ~ In m (map tname l) -> upd_first m F l = l ++ [F (new_node m)].
+Proof.
+  induction l as [|k l IH]; intros H; [reflexivity|]. cbn [upd_first].
+  destruct (str_eqb (tname k) m) eqn:E.
+  - apply str_eqb_eq in E. exfalso. apply H. left. exact E.
+  - cbn [app]. f_equal. apply IH. intros Hin. apply H. right. exact Hin.
+Qed.
+
+Lemma ins_all_name l : forall t, tname (ins_all l t) = tname t.
+Proof.
+  induction l as [|x l IH]; intros t; [reflexivity|]. unfold ins_all. cbn [fold_left].
+  fold (ins_all l (add_branch (fst x) (snd x) t)). rewrite IH. apply add_branch_name.
+Qed.
+
+Lemma ins_all_app l1 l2 t : ins_all (l1 ++ l2) t = ins_all l2 (ins_all l1 t).
+Proof. unfold ins_all. apply fold_left_app. Qed.
+
+Lemma ins_all_cons x l t : ins_all (x :: l) t = ins_all l (add_branch (fst x) (snd x) t).
+Proof. reflexivity. Qed.
+
+(* a block of records below the child called m only touches that child *)
+Lemma ins_block m L : forall x g n a cs,
+  ins_all (map (fun qr => (m :: fst qr, snd qr)) (x :: L)) (T g n a cs)
+  = T g n a (upd_first m (ins_all (x :: L)) cs).
+Proof.
+  induction L as [|y L IH]; intros x g n a cs.
+  - cbn [map]. rewrite ins_all_cons. cbn [fst snd ins_all fold_left]. rewrite add_branch_cons. reflexivity.
+  - change (map (fun qr => (m :: fst qr, snd qr)) (x :: y :: L))
+      with ((m :: fst x, snd x) :: map (fun qr => (m :: fst qr, snd qr)) (y :: L)).
+    rewrite ins_all_cons. cbn [fst snd]. rewrite add_branch_cons, IH. f_equal.
+    rewrite upd_first_twice by (intros z; apply add_branch_name).
+    apply upd_first_ext. intros z. reflexivity.
+Qed.
+
+Lemma rel_recs_cons f t : exists x L, rel_recs f t = x :: L.
+Proof. destruct t. cbn [rel_recs]. eexists. eexists. reflexivity. Qed.
+
+Lemma kids_loop f g n a ks : forall done,
+  NoDup (map tname (done ++ ks)) ->
+  Forall (fun k => ins_all (rel_recs f k) (new_node (tname k)) = rebuild f k) ks ->
+  ins_all (flat_map (fun k => map (fun qr => (tname k :: fst qr, snd qr)) (rel_recs f k)) ks) (T g n a done)
+  = T g n a (done ++ map (rebuild f) ks).
+Proof.
+  induction ks as [|k ks IH]; intros done Hnd HF.
+  - cbn. rewrite app_nil_r. reflexivity.
+  - inversion HF as [|? ? Hk HF']; subst. cbn [flat_map]. rewrite ins_all_app.
+    destruct (rel_recs_cons f k) as [x [L E]]. rewrite E, ins_block, <- E.
+    rewrite upd_first_fresh.
+    + rewrite Hk, IH.
+      * rewrite <- app_assoc. reflexivity.
+      * rewrite <- app_assoc. cbn [app]. rewrite !map_app in *. cbn [map] in *. rewrite rebuild_name. exact Hnd.
+      * exact HF'.
+    + rewrite map_app in Hnd. cbn [map] in Hnd. apply NoDup_remove_2 in Hnd.
+      intros Hin. apply Hnd. apply in_or_app. left. exact Hin.
+Qed.
+
+Lemma rebuild_from_records f t :
+  valid_tree t = true ->
+  (forall x, NoDup (map fst (tattrs x)) -> NoDup (map fst (f x))) ->
+  forall a0, dict_update a0 (f t) = f t ->
+  ins_all (rel_recs f t) (T None (tname t) a0 []) = rebuild f t.
+Proof.
+  intros Hv Hf. induction t as [g n a ks IH] using tree_ind'. intros a0 Ha0.
+  apply valid_tree_inv in Hv as [Hok Hks]. apply node_ok_inv in Hok as [_ [Hnames _]].
+  cbn [rel_recs tname]. rewrite ins_all_cons. cbn [fst snd add_branch set_attrs]. rewrite Ha0.
+  rewrite kids_loop; [reflexivity|exact Hnames|].
+  rewrite Forall_forall in *. intros k Hk. apply IH; [exact Hk|apply Hks; exact Hk|].
+  pose proof (Hks k Hk) as Hvk. destruct k as [g' n' a' ks']. apply valid_tree_inv in Hvk as [Hok' _].
+  apply node_ok_inv in Hok' as [_ [_ Ha']]. apply (dict_of_nodup (f (T g' n' a' ks'))). apply Hf. exact Ha'.
+Qed.
+
+Lemma norm_tree_rebuild dn t : norm_tree dn t = rebuild (fun x => norm_attrs dn (tattrs x)) t.
+Proof.
+  induction t as [g n a ks IH] using tree_ind'. cbn [norm_tree rebuild tattrs]. f_equal.
+  apply map_ext_in. intros k Hk. rewrite Forall_forall in IH. apply IH. exact Hk.
+Qed.
+
+Lemma norm_attrs_keys_nodup dn a : NoDup (map fst a) -> NoDup (map fst (norm_attrs dn a)).
+Proof. intros H. unfold norm_attrs. apply filter_keys_nodup. apply sort_keys_nodup. exact H. Qed.
+
+(* the loop of dict_to_tree / dataframe_to_tree over well-formed path strings *)
+Lemma add_paths_ok c r items : forall t0,
+  tname t0 = r -> Forall (fun qr => Forall (clean c) (r :: fst qr)) items ->
+  add_paths [c] (map (fun qr => (path_name [c] (r :: fst qr), snd qr)) items) t0 = Ret (ins_all items t0).
+Proof.
+  induction items as [|x items IH]; intros t0 Hr HF; [reflexivity|].
+  inversion HF as [|? ? Hx HF']; subst. cbn [map add_paths fst snd].
+  rewrite (add_path_to_tree_ok c t0 (tname t0)) by (try reflexivity; exact Hx).
+  rewrite ins_all_cons. apply IH; [|exact HF']. apply add_branch_name.
+Qed.
